@@ -4,3 +4,4 @@
 -/
 import RosuModel.Props.C14Grammar
 import RosuModel.Props.C14Ieee
+import RosuModel.Props.C14IeeePos
